@@ -4,14 +4,14 @@ sys.path.insert(0, "/verif")
 from lib import common, tlc as T, layers, gorun
 import importlib.util
 spec = importlib.util.spec_from_file_location("m", "/verif/modules/Log/module.py"); m = importlib.util.module_from_spec(spec); spec.loader.exec_module(m); m.DIR = "/verif/modules/Log"
-ctx = common.Ctx("C01", "quick", int(sys.argv[1]) if len(sys.argv) > 1 else 1)
+ctx = common.Ctx("C99", "quick", int(sys.argv[1]) if len(sys.argv) > 1 else 1)
 os.environ["VERIF_KEEP"] = "1"
 d = T.stage(ctx, m.DIR, "mc")
 scheds = []
 for cfg, (inline, interval) in sorted(m.SIMS.items()):
     hs, _ = T.simulate_hists(ctx, d, "MC_Log.tla", cfg, num=8, depth=45, seed=ctx.seed, timeout=600)
     for j, h in enumerate(hs):
-        scheds.append({"inline": inline, "interval": interval, "cache": j % 2 == 0, "mbs": m.MBS, "steps": h})
+        scheds.append({"inline": inline, "interval": interval, "cache": j % 2 == 0, "sync": cfg not in m.ASYNC_SIMS, "mbs": m.MBS, "steps": h})
 print(len(scheds), "schedules")
 rows, hits = m.harness(ctx, scheds, "dev")
 print(len(rows), "rows", hits)
